@@ -155,7 +155,7 @@ fn main() {
     let strict = std::env::var("VERIF_STRICT").is_ok();
     let ctx = Ctx::new(p.id, p.level, tier, seed, strict);
     // regression replays first
-    let dir = format!("/verif/regress/{}", p.id);
+    let dir = format!("{}/regress/{}", hcverif::runner::verif_dir(), p.id);
     if let Ok(rd) = std::fs::read_dir(&dir) {
         let mut files: Vec<_> = rd.filter_map(|e| e.ok()).map(|e| e.path()).filter(|p| p.extension().map(|x| x == "json").unwrap_or(false)).collect();
         files.sort();
